@@ -926,7 +926,9 @@ def dup_columns(case, names):
 def oracle_fit(case, ia):
     if " | " not in ia[0]:
         return f"fit-jacobian-available: {ia[0][:60]}"
-    names = ia[0].split(" | ")[0].split(" ")
+    names = [n for n in ia[0].split(" | ")[0].split(" ") if n]
+    if not names:
+        return None  # every parameter pinned to a constant: the Jacobian has no column to judge
     A = parse_rows(ia[0].split(" | ")[1])
     fit, _ = build_fit(case)
     vec = np.array([float(case["values"][n]) for n in names], dtype=float)
